@@ -202,7 +202,7 @@ func curatedPool() []*R {
 
 func TestMapStateMachine(t *testing.T) {
 	cur := curatedPool()
-	rec.Check(t, rec.Scale(8000, 40000), func(t *rapid.T) {
+	rec.Check(t, rec.Scale(8000, 20000), func(t *rapid.T) {
 		// the pool: curated recipes, random ones and their mutants; a recipe may appear twice (two distinct objects)
 		var pool []*R
 		np := rapid.IntRange(2, 8).Draw(t, "npool")
